@@ -737,6 +737,8 @@ func (e *Env) evalCall(n *ast.CallExpr) Val {
 		return boolVal(e.st.hasPrefix(arg(0).T(), arg(1).T()))
 	case "contains":
 		return boolVal(e.st.contains(arg(0).T(), arg(1).T()))
+	case "cutPrefix":
+		return strVal(App("cutPrefix", SStr, arg(0).T(), arg(1).T()))
 	case "lower":
 		return strVal(e.st.strFn("lower", arg(0).T()))
 	case "canon":
